@@ -135,6 +135,35 @@ def _cases(draw, tier="quick"):
                 max_iter=draw(st.integers(2, 40)), n_init=draw(st.integers(1, 2)), balanced=draw(st.booleans()), Q=Q)
 
 
+def check_optimized(case):
+    """the statement does not depend on how the interpreter was started: the same checks under `python -O`, where assert statements
+    (the library has many) are not executed"""
+    import json
+    import os
+    import subprocess
+    import sys
+    root = os.path.dirname(os.path.dirname(os.path.dirname(os.path.abspath(__file__))))
+    env = dict(os.environ)
+    env["PYTHONPATH"] = root + os.pathsep + env.get("PYTHONPATH", "")
+    r = subprocess.run([sys.executable, "-O", "-m", "vf.subrun", "vf.props.c07", "check_fit"], input=json.dumps(case["subs"]), capture_output=True, text=True, env=env, cwd=root)
+    if r.returncode != 0:
+        raise RuntimeError("subrun failed: %s" % r.stderr[-800:])
+    doc = json.loads(r.stdout)
+    if doc["optimize"] < 1:
+        raise RuntimeError("the child interpreter did not run with -O")
+    for sub, res in zip(case["subs"], doc["results"]):
+        if res["ok"] is None:
+            raise RuntimeError("harness error in the child: %s" % res["error"])
+        if not res["ok"]:
+            raise Violation("python-O:" + res["sig"], "under python -O: " + res["msg"], dict(strategy=sub["strategy"], k=sub["k"], n=len(sub["X"])))
+    return Outcome(["subcases=%d" % len(case["subs"])] + sorted(set(s_["strategy"] for s_ in case["subs"])), True)
+
+
+@st.composite
+def _optimized_cases(draw, tier="quick"):
+    return dict(subs=[draw(_cases(tier)) for _ in range(draw(st.integers(6, 10)))])
+
+
 @st.composite
 def _large_cases(draw, tier="quick"):
     """sizes beyond a few hundred rows (internal block sizes, buffers): a large batch through a small model, or a large training set"""
@@ -149,6 +178,8 @@ def _large_cases(draw, tier="quick"):
 
 
 CLAUSES = [
+    Clause("python-O", check_optimized, strategy=lambda tier: _optimized_cases(tier), quick=32, thorough=400, quick_shards=16, thorough_shards=16,
+           doc="6-10 fit/predict cases per evaluation re-run in a child interpreter started with -O (assert statements not executed)"),
     Clause("large", check_fit, strategy=lambda tier: with_np(_large_cases(tier)), quick=48, thorough=800, quick_shards=16, thorough_shards=16,
            doc="the same statement on batches / training sets of several hundred rows (sizes crossing 256, 512, 1024)"),
     Clause("fit-predict", check_fit, strategy=lambda tier: with_np(_cases(tier)), quick=3200, thorough=60000, quick_shards=16,
